@@ -123,10 +123,13 @@ def _clear_post(_ARGS, result):
     try:
         a = refcat.to_ref(self)
         names = [x for x in args if isinstance(x, str)]
-        if len(names) != len(args) or any(('=' in n and ',' in n) for n in names):
-            return True   # outside the stated domain (named unary features)
+        if len(names) != len(args):
+            return True   # outside the stated domain (features are named by text)
         want = refcat.erase(a, set(names))
         got = refcat.to_ref(result)
+        if got == want and (str(result) != refcat.ref_print(want) or not (result == refcat.ref_print(want))):
+            _viol('cat:clear-features', f'({refcat.ref_print(a)}).clear_features{tuple(names)} has the right structure but prints as '
+                  f'{str(result)!r} / does not equal its own canonical text {refcat.ref_print(want)!r}', {'a': refcat.ref_print(a), 'names': names})
         if got != want:
             _viol('cat:clear-features', f'({refcat.ref_print(a)}).clear_features{tuple(names)} gave {refcat.ref_print(got)}, '
                   f'reference says {refcat.ref_print(want)}', {'a': refcat.ref_print(a), 'names': names})
